@@ -63,6 +63,13 @@ def run(ctx):
     truefalse(ctx)
     bijection(ctx)
     memo_tables(ctx)
+    # "building the same expression (same operator, same operand references, same widths ..) returns the same reference": the node a builder interns
+    # must be the one it was asked for (operands and widths in their own fields) and the trivial cases (full slice, extension by 0) must be
+    # normalised away, or equal requests intern different nodes - the builder contract shared with C08 / C14
+    from .. import builders
+    from ..tables import T0
+    ctx.rule("T2", "every Context builder constructs the variant(s) its contract names, with parameters in the contracted child positions and attributes computed as contracted; symbol builders carry name and widths in their own fields")
+    builders.check_t2(ctx, T0(ctx))
     if ctx.tier == "thorough":
         witnesses(ctx)
 
